@@ -270,15 +270,16 @@ def OPT_ALL(opt, pred):
     return opt is None or bool(pred(opt))
 
 
-def FILTER(seq, pred):
-    """[x for x in seq if pred(x)] (order preserving)."""
+def FILTER(seq, pred, strict=False):
+    """[x for x in seq if pred(x)] (order preserving).  strict: also state that the result is strictly shorter than
+    `seq` when some element is rejected (used by termination measures)."""
     if smt():
         from . import loops
 
         if isinstance(seq, V.SymSeq):
             i0 = z3.FreshConst(z3.IntSort(), "fi0")
             cond = _b(pred(seq.at(CTX, i0)))
-            return loops.canonical_filter(CTX, seq, cond, i0)
+            return loops.canonical_filter(CTX, seq, cond, i0, strict=strict)
         items = seq.items if isinstance(seq, V.PyList) else list(seq)
         out = []
         for x in items:
@@ -304,3 +305,12 @@ def MAPSEQ(seq, fn):
         items = seq.items if isinstance(seq, V.PyList) else list(seq)
         return V.PyList([fn(x) for x in items])
     return [fn(x) for x in seq]
+
+
+def CALLS(qualname_suffix: str):
+    """SMT reading only: the calls made so far on this path through the contract of a function whose qualified name
+       ends with `qualname_suffix`, in program order: a list of records {ns (arguments), result, returned, index}.
+       Native reading: None (protocol clauses are not evaluated natively)."""
+    if smt():
+        return [e for e in CTX.call_log if e["callee"].endswith(qualname_suffix)]
+    return None
